@@ -70,3 +70,80 @@ package linker
 //@ flow chunk-bytes-is-final-length C19: func=(*linkerContext).generateChunksInParallel ; in=linker ; site=dyncall jsonMetadataChunkCallback ; argpath=0:call len(call Done(outputContentsJoiner))
 //@ flow chunk-contents-is-final-output C19: func=(*linkerContext).generateChunksInParallel ; in=linker ; site=store OutputFile.Contents ; valuepath=call Done(outputContentsJoiner)|phi:outputSourceMap|*outputSourceMap*|*externalLegalComments*
 //@ flow count-relative-to-own-dir C19: func=(*linkerContext).accurateFinalByteCount ; in=linker ; site=call pathBetweenChunks ; argpath=1:chunkFinalRelDir
+
+// ----------------------------------------------------------------------------------------------
+// C04 (F7): "the output never references a binding whose declaration was removed". At the linker a
+// reference is a part dependency. Marking is monotone, marks its argument, marks the argument's file, and a
+// part that BECOMES live in a call has every one of its dependencies live when the call returns. By
+// induction over the marking calls the final live set is closed under Dependencies.
+//@ spec func partPtr(c *linkerContext, sourceIndex uint32, partIndex uint32) *js_ast.Part =
+//@     elemptr(c.graph.Files[sourceIndex].InputFile.Repr.(*graph.JSRepr).AST.Parts, int(partIndex))
+//@ spec func jsParts(c *linkerContext, sourceIndex uint32) []js_ast.Part = c.graph.Files[sourceIndex].InputFile.Repr.(*graph.JSRepr).AST.Parts
+//@ spec func isJSFile(c *linkerContext, sourceIndex uint32) bool = is(c.graph.Files[sourceIndex].InputFile.Repr, *graph.JSRepr)
+
+// Data-structure precondition (established by the parser and scanImportsAndExports; an assumption here):
+// part dependencies always point into JavaScript files.
+//@ spec func depsAreJS(c *linkerContext) bool = forall q *js_ast.Part, k int :: 0 <= k && k < len(q.Dependencies) ==> isJSFile(c, q.Dependencies[k].SourceIndex)
+
+// An import record that markFileLiveForTreeShaking must keep for its side effects
+// (Index32.IsValid is flippedBits != 0, GetIndex is ^flippedBits, Flags.Has is flags&flag != 0).
+//@ spec func jsRecord(c *linkerContext, sourceIndex uint32, r uint32) ast.ImportRecord = c.graph.Files[sourceIndex].InputFile.Repr.(*graph.JSRepr).AST.ImportRecords[r]
+//@ spec func keptImport(c *linkerContext, sourceIndex uint32, r uint32) bool =
+//@     jsRecord(c, sourceIndex, r).Kind == ast.ImportStmt &&
+//@     (jsRecord(c, sourceIndex, r).SourceIndex.flippedBits != 0 ?
+//@         (c.graph.Files[4294967295 - jsRecord(c, sourceIndex, r).SourceIndex.flippedBits].InputFile.SideEffects.Kind == graph.HasSideEffects || c.options.IgnoreDCEAnnotations) :
+//@         (jsRecord(c, sourceIndex, r).Flags & ast.IsExternalWithoutSideEffects) == 0)
+
+//@ spec func importTargetLive(c *linkerContext, sourceIndex uint32, r uint32) bool =
+//@     keptImport(c, sourceIndex, r) && jsRecord(c, sourceIndex, r).SourceIndex.flippedBits != 0 ==>
+//@         c.graph.Files[4294967295 - jsRecord(c, sourceIndex, r).SourceIndex.flippedBits].IsLive
+
+// Size assumption: a file has fewer than 2^32 parts (part indices are stored as uint32 everywhere).
+//@ spec func partsFit(c *linkerContext) bool = forall s uint32 :: isJSFile(c, s) ==> len(jsParts(c, s)) <= 4294967296
+
+//@ func (*linkerContext).markPartLiveForTreeShaking
+//@   arith int
+//@   prop C04
+//@   opt transparent depsAreJS partsFit
+//@   modifies js_ast.Part.IsLive, graph.LinkerFile.IsLive
+//@   requires c != nil && isJSFile(c, sourceIndex) && depsAreJS(c) && partsFit(c)
+//@   ensures live: partPtr(c, sourceIndex, partIndex).IsLive
+//@   ensures file-live: !old(partPtr(c, sourceIndex, partIndex).IsLive) ==> c.graph.Files[sourceIndex].IsLive
+//@   ensures deps-live: !old(partPtr(c, sourceIndex, partIndex).IsLive) ==>
+//@       (forall k int :: 0 <= k && k < len(partPtr(c, sourceIndex, partIndex).Dependencies) ==>
+//@           partPtr(c, partPtr(c, sourceIndex, partIndex).Dependencies[k].SourceIndex, partPtr(c, sourceIndex, partIndex).Dependencies[k].PartIndex).IsLive)
+//@   ensures mono-parts: forall q *js_ast.Part :: old(q.IsLive) ==> q.IsLive
+//@   ensures mono-files: forall q *graph.LinkerFile :: old(q.IsLive) ==> q.IsLive
+//@   loop 0 invariant forall q *js_ast.Part :: old(q.IsLive) ==> q.IsLive
+//@   loop 0 invariant forall q *graph.LinkerFile :: old(q.IsLive) ==> q.IsLive
+//@   loop 0 invariant partPtr(c, sourceIndex, partIndex).IsLive && c.graph.Files[sourceIndex].IsLive
+//@   loop 0 invariant forall k int :: 0 <= k && k <= rangeindex ==>
+//@       partPtr(c, partPtr(c, sourceIndex, partIndex).Dependencies[k].SourceIndex, partPtr(c, sourceIndex, partIndex).Dependencies[k].PartIndex).IsLive
+
+//@ func (*linkerContext).markFileLiveForTreeShaking
+//@   arith int
+//@   prop C04
+//@   opt transparent depsAreJS partsFit
+//@   modifies js_ast.Part.IsLive, graph.LinkerFile.IsLive
+//@   requires c != nil && depsAreJS(c) && partsFit(c)
+//@   loop 0 invariant (forall q *js_ast.Part :: old(q.IsLive) ==> q.IsLive) && (forall q *graph.LinkerFile :: old(q.IsLive) ==> q.IsLive) && c.graph.Files[sourceIndex].IsLive
+//@   loop 1 invariant (forall q *js_ast.Part :: old(q.IsLive) ==> q.IsLive) && (forall q *graph.LinkerFile :: old(q.IsLive) ==> q.IsLive) && c.graph.Files[sourceIndex].IsLive
+//@   loop 2 invariant (forall q *js_ast.Part :: old(q.IsLive) ==> q.IsLive) && (forall q *graph.LinkerFile :: old(q.IsLive) ==> q.IsLive) && c.graph.Files[sourceIndex].IsLive
+//@   loop 1 invariant forall i int :: 0 <= i && i < partIndex && !jsParts(c, sourceIndex)[i].CanBeRemovedIfUnused ==> jsParts(c, sourceIndex)[i].IsLive
+//@   loop 1 invariant canBeRemovedIfUnused ==> jsParts(c, sourceIndex)[partIndex].CanBeRemovedIfUnused
+//@   loop 1 invariant forall j int :: 0 <= j && j <= rangeindex && keptImport(c, sourceIndex, jsParts(c, sourceIndex)[partIndex].ImportRecordIndices[j]) ==> !canBeRemovedIfUnused
+//@   loop 1 invariant forall i, j int :: 0 <= i && i < partIndex && 0 <= j && j < len(jsParts(c, sourceIndex)[i].ImportRecordIndices) && keptImport(c, sourceIndex, jsParts(c, sourceIndex)[i].ImportRecordIndices[j]) ==> jsParts(c, sourceIndex)[i].IsLive
+//@   loop 0 invariant forall i, j int :: 0 <= i && i <= rangeindex && 0 <= j && j < len(jsParts(c, sourceIndex)[i].ImportRecordIndices) && keptImport(c, sourceIndex, jsParts(c, sourceIndex)[i].ImportRecordIndices[j]) ==> jsParts(c, sourceIndex)[i].IsLive
+//@   loop 1 invariant forall j int :: 0 <= j && j <= rangeindex ==> importTargetLive(c, sourceIndex, jsParts(c, sourceIndex)[partIndex].ImportRecordIndices[j])
+//@   loop 1 invariant forall i, j int :: 0 <= i && i < partIndex && 0 <= j && j < len(jsParts(c, sourceIndex)[i].ImportRecordIndices) ==> importTargetLive(c, sourceIndex, jsParts(c, sourceIndex)[i].ImportRecordIndices[j])
+//@   loop 0 invariant forall i, j int :: 0 <= i && i <= rangeindex && 0 <= j && j < len(jsParts(c, sourceIndex)[i].ImportRecordIndices) ==> importTargetLive(c, sourceIndex, jsParts(c, sourceIndex)[i].ImportRecordIndices[j])
+//@   loop 0 invariant forall i int :: 0 <= i && i <= rangeindex && !jsParts(c, sourceIndex)[i].CanBeRemovedIfUnused ==> jsParts(c, sourceIndex)[i].IsLive
+//@   ensures file-live: c.graph.Files[sourceIndex].IsLive
+//@   ensures mono-parts: forall q *js_ast.Part :: old(q.IsLive) ==> q.IsLive
+//@   ensures mono-files: forall q *graph.LinkerFile :: old(q.IsLive) ==> q.IsLive
+//@   ensures keeps-imports: !old(c.graph.Files[sourceIndex].IsLive) && isJSFile(c, sourceIndex) ==>
+//@       (forall i, j int :: 0 <= i && i < len(jsParts(c, sourceIndex)) && 0 <= j && j < len(jsParts(c, sourceIndex)[i].ImportRecordIndices) && keptImport(c, sourceIndex, jsParts(c, sourceIndex)[i].ImportRecordIndices[j]) ==> jsParts(c, sourceIndex)[i].IsLive)
+//@   ensures imports-live: !old(c.graph.Files[sourceIndex].IsLive) && isJSFile(c, sourceIndex) ==>
+//@       (forall i, j int :: 0 <= i && i < len(jsParts(c, sourceIndex)) && 0 <= j && j < len(jsParts(c, sourceIndex)[i].ImportRecordIndices) ==> importTargetLive(c, sourceIndex, jsParts(c, sourceIndex)[i].ImportRecordIndices[j]))
+//@   ensures keeps-effects: !old(c.graph.Files[sourceIndex].IsLive) && isJSFile(c, sourceIndex) ==>
+//@       (forall i int :: 0 <= i && i < len(jsParts(c, sourceIndex)) && !jsParts(c, sourceIndex)[i].CanBeRemovedIfUnused ==> jsParts(c, sourceIndex)[i].IsLive)
